@@ -119,9 +119,20 @@ func valShape(i int, pfx string) *JV {
 	panic("valShape")
 }
 
-// genTok builds one reference token. kinds: 0 = one symbolic byte, 1 = two, 2 = "a~0b", 3 = "c~1d", 4 = three symbolic bytes.
-func genTok(name string, maxKind int) Tok {
-	switch vx.Choose(name+".kind", maxKind) {
+// chooseMask picks one of the set bits of mask (as an index 0..n-1).
+func chooseMask(name string, mask, n int) int {
+	var idx []int
+	for i := 0; i < n; i++ {
+		if mask&(1<<uint(i)) != 0 {
+			idx = append(idx, i)
+		}
+	}
+	return idx[vx.Choose(name, len(idx))]
+}
+
+// genTok builds one reference token. kinds (bits of tokMask): 0 = one symbolic byte, 1 = two, 2 = "a~0b", 3 = "c~1d", 4 = three symbolic bytes, 5 = "a".
+func genTok(name string, tokMask int) Tok {
+	switch chooseMask(name+".kind", tokMask, 6) {
 	case 0:
 		b := []byte{symTokByte(name + ".0")}
 		return Tok{Raw: b, Name: b}
@@ -135,6 +146,8 @@ func genTok(name string, maxKind int) Tok {
 	case 4:
 		b := []byte{symTokByte(name + ".0"), symTokByte(name + ".1"), symTokByte(name + ".2")}
 		return Tok{Raw: b, Name: b}
+	case 5:
+		return Tok{Raw: []byte("a"), Name: []byte("a")}
 	}
 	panic("genTok")
 }
@@ -158,16 +171,16 @@ func (p Ptr) text() []byte {
 	return out
 }
 
-// genOp builds one operation of a chosen kind.
-func genOp(name string, minTok, maxTok, tokKinds int) Op {
-	op := Op{Kind: vx.Choose(name+".kind", 6)}
-	op.Path = genPtr(name+".path", minTok, maxTok, tokKinds)
+// genOp builds one operation of a kind chosen from kindMask, with the first nVals value shapes.
+func genOp(name string, kindMask, minTok, maxTok, tokMask, nVals int) Op {
+	op := Op{Kind: chooseMask(name+".kind", kindMask, 6)}
+	op.Path = genPtr(name+".path", minTok, maxTok, tokMask)
 	switch op.Kind {
 	case OpAdd, OpReplace, OpTest:
-		op.Val = valShape(vx.Choose(name+".val", nValShapes), name+".")
+		op.Val = valShape(vx.Choose(name+".val", nVals), name+".")
 		op.HasVal = true
 	case OpMove, OpCopy:
-		op.From = genPtr(name+".from", minTok, maxTok, tokKinds)
+		op.From = genPtr(name+".from", minTok, maxTok, tokMask)
 	}
 	return op
 }
